@@ -127,7 +127,7 @@ def remove (less : P → P → Bool) (q : PQ K P) (k : K) : Option (PQ K P) :=
         let m1 := applyNotes q.m notes
         some { h := h', m := if removeDeletes then mDel m1 k else m1 }
 
-def grow (q : PQ K P) : PQ K P := if pqGrowForwards then { q with h := Heap.grow q.h } else q
+def grow (q : PQ K P) : PQ K P := { q with h := Heap.grow q.h }
 
 /-- the function `iterator.Map` applies to what the inner iterator yields -/
 def mapOut {α β : Type} (f : α → β) : IterOut α → IterOut β
